@@ -1,7 +1,7 @@
 (* C20 — A failing signer or entropy source never yields a usable or half-signed message.
    Statements only (copied from coq/theories by bin/mkprops); each proof is `exact <lemma>`. *)
 From Coq Require Import Ascii String ZArith List Bool Permutation.
-From GoCose Require Import Bytes Cbor CborProofs Res GoVal Obs Ecdsa EcdsaProofs Fx Headers Enc Dec Msg HashEnv Key SigVer Run TbsProofs FlowProofs DecProofs KeyProofs HdrProofs EncProofs EncCanon NoPanic Effects MoreProofs KeyCbor EncDec HdrRoundTrip WireLeg RulesTie HeWire ModesTie Bignum FixedPoint ClearedForm CastAlg.
+From GoCose Require Import Bytes Cbor Res GoVal Obs Ecdsa Fx Headers Enc Dec Msg HashEnv Key SigVer Run FlowProofs.
 From GoCose.Gen Require Import Generated.
 Import ListNotations.
 Open Scope Z_scope.
